@@ -142,6 +142,12 @@ def solo (i : Nat) : Nat → State → State
     | some s' => solo i k s'
     | none => s
 
+/-- `grog clean` before fix commit 5a4d0e7: `os.RemoveAll` of the directory that contains the lock path, by a
+    process that does not hold the lock. (Since the fix `clean` is an ordinary contender: it runs `Lock()`,
+    deletes everything except the lock file, and runs `Unlock()`.) Not an event of the protocol; kept for the
+    regression witness. -/
+def wipe (s : State) : State := { s with path := none }
+
 /-- the process is past lock acquisition: `Lock()` has returned nil and `Unlock()` has not yet
     removed the lock path -/
 def PC.inCritical : PC → Bool
